@@ -102,7 +102,9 @@ def _delta(kind, n, z0, ztop, zm):
 
 @st.composite
 def _case(draw):
-    zm = draw(gen.logfl(2.0, 20.0))
+    # one column in four is a tall one (tower at 20..200 m, Kz of 10..100 m2/s): by similarity the discretisation
+    # errors are those of the small columns - unless a term of the scheme is dimensionally inconsistent
+    zm = draw(gen.logfl(2.0, 20.0)) if draw(st.integers(0, 3)) else draw(gen.logfl(20.0, 200.0))
     ztop = 2 * zm
     gk = draw(st.sampled_from(["uniform", "log", "bldfm"]))
     z0 = ztop / draw(gen.logfl(40.0, 400.0) if gk != "log" else gen.logfl(40.0, 2000.0))
@@ -231,9 +233,11 @@ def check_case(c):
     E_all, E_half = [], []
     n_nyq = 0
     delta4 = None
-    for n in (n0, 4 * n0):
+
+    def errors_at(n):
+        nonlocal n_nyq
         z = zgrid(gk, n, z0, ztop, zm)
-        delta4 = float(np.max(np.diff(z) / z[:-1]))
+        dn = float(np.max(np.diff(z) / z[:-1]))
         prof = tuple(f(z) for f in fn)
         if c.get("same_kh"):
             prof = (prof[0], prof[1], prof[2], prof[2], prof[4])
@@ -268,8 +272,12 @@ def check_case(c):
             ea = max(ea, e)
             if r <= 0.5:
                 eh = max(eh, e)
-        E_all.append(ea)
-        E_half.append(eh)
+        return ea, eh, dn
+
+    for n in (n0, 4 * n0):
+        ea_, eh_, delta4 = errors_at(n)
+        E_all.append(ea_)
+        E_half.append(eh_)
     if n_nyq:
         out.label("nyquist-components-checked")
 
@@ -296,7 +304,18 @@ def check_case(c):
         accidental = E_half[1] > 2.0 * E_half[0] and E_half[1] <= delta4
         if accidental:
             out.label("coarse-error-accidentally-small")
-        if not (E_half[1] <= max(E_half[0] / 2.5, 1e-6) or accidental):
+        slow = not (E_half[1] <= max(E_half[0] / 2.5, 1e-6) or accidental)
+        if slow and 16 * n0 <= 4096:
+            # a milder form of the same accident: the coarse-grid error lies below the line the finer grids settle on
+            # (thorough seed 15: 1.04e-2 at n=16, then 6.7e-3, 5.4e-3, 4.5e-3 at n=48, 64, 80, i.e. ~0.35/n; the line gives
+            # 2.2e-2 at n=16), so one quartering shrinks it 1.9-fold only.  A stalled convergence stalls on the next
+            # quartering as well; an accident does not: the verdict is taken from the quartering 4n -> 16n
+            e16 = errors_at(16 * n0)[1]
+            out.detail["E_half_16n"] = e16
+            if e16 <= max(E_half[1] / 2.5, 1e-6):
+                slow = False
+                out.label("rate-met-on-the-next-quartering")
+        if slow:
             out.bad(f"error shrinks only {E_half[0] / max(E_half[1], 1e-300):.2f}-fold when the layer thickness is quartered "
                     f"({E_half[0]:.3e} -> {E_half[1]:.3e}; {gk} grid, n={n0}, delta={delta:.3f}, family {c['fam']}, level {c['lvl_frac']})")
     kz0, kzt = float(fn[4](z0)), float(fn[4](ztop))
